@@ -5,6 +5,8 @@ REGISTRY = {
     "C13": dict(go=["c13obs"], extract=[("c13", "ExtractC13.v", "c13_driver.ml")]),
     "C04": dict(go=["astobs", "evalobs", "translate"], overlay_go=["c04obs"], translate=[("ops", "GenOps.v")],
                 extract=[("verify", "ExtractVerify.v", "verify_driver.ml")]),
+    "C01": dict(go=["translate"], translate=[("precedence", "GenPrecedence.v")]),
+    "C02": dict(go=["c02obs"], extract=[("clos", "ExtractClos.v", "clos_driver.ml")]),
     "core": dict(go=["lexobs", "astobs", "evalobs"],
                  extract=[("lexer", "ExtractLexer.v", "lexer_driver.ml"), ("parser", "ExtractParser.v", "parser_driver.ml"),
                           ("compiler", "ExtractCompiler.v", "compiler_driver.ml"), ("vm", "ExtractVM.v", "vm_driver.ml"),
